@@ -765,6 +765,65 @@ def r15_variadic_builtins_handle_every_argument(ctx, rule="C18.R15"):
     ctx.require(rule, 2)
 
 
+_UTF8_BYTES = ("as_bytes", "into_bytes", "bytes", "from_utf8", "from_utf8_lossy", "from_utf8_unchecked", "as_bytes_mut")
+
+
+def r16_records_hold_one_byte_per_character(ctx, rule="C18.R16"):
+    """`a record PUT with FIELD / LSET reads back unchanged with GET`: a BASIC string is a sequence of characters
+    0..255 and a record holds one byte for each.  The VM keeps strings as Rust strings (UTF-8: a character above
+    127 takes two bytes there), so both directions go through the VM's own codec - the function that maps every
+    char to one byte and its inverse.  The built-ins that move strings into and out of records and numbers (PUT,
+    GET, CVD, MKD$) reach that codec and call none of the std conversions that expose the UTF-8 bytes
+    (as_bytes, into_bytes, bytes, from_utf8 ...): with `as_bytes` PUT writes two bytes for CHR$(233), GET reads one
+    byte per character, and every field behind it is shifted."""
+    prog = ctx.prog
+    enc, dec = set(), set()
+    for f in prog.fns.values():
+        if f.crate != "rusty_basic" or f.body is None or "interpreter" not in f.id:
+            continue
+        for blk in f.body.blocks:
+            if blk.get("c"):
+                continue
+            for st in blk["s"]:
+                r = st.get("r", {})
+                if st["k"] != "assign" or r.get("k") != "cast":
+                    continue
+                so = mir.op_place(r["o"])
+                sty = f.body.locals[so[0]]["ty"] if so is not None and not so[1] else ""
+                dty = f.body.locals[st["p"][0]]["ty"] if not st["p"][1] else ""
+                owner = prog.enclosing_fn(f) or f
+                if sty == "char" and dty == "u8":
+                    enc.add(owner.id)
+                if sty == "u8" and dty == "char":
+                    dec.add(owner.id)
+    # the codec proper: the functions that do nothing else (string_utils), not the built-ins that build one character
+    enc = {x for x in enc if "built_ins" not in x}
+    dec = {x for x in dec if "built_ins" not in x}
+    if not enc or not dec:
+        raise CheckError("%s: the byte-per-character codec was not found (char -> u8: %d functions, u8 -> char: %d)" % (rule, len(enc), len(dec)))
+    n = 0
+    for module, want, what in (("put", enc, "PUT"), ("get", dec, "GET"), ("cvd", enc, "CVD"), ("mkd", dec, "MKD$")):
+        fns = [f for f in prog.fns.values() if f.crate == "rusty_basic" and f.body is not None
+               and ("interpreter::built_ins::%s::" % module) in f.path]
+        if not fns:
+            raise CheckError("%s: built-in %s not found" % (rule, module))
+        reach = prog.reachable_from(fns)
+        bad = []
+        for f in fns:
+            for _b, t in f.body.calls():
+                cp = t.get("cpath") or ""
+                if cp.split("::")[-1] in _UTF8_BYTES and ("str" in cp or "String" in cp or "string" in cp):
+                    bad.append("%s (%s:%s)" % (cp.split("::")[-1], f.file, t.get("ln")))
+        n += 1
+        ctx.decide(bool(reach & want) and not bad, rule, "%s:%s" % (rule, what), fns[0].loc,
+                   "converts through the byte-per-character codec (%s), no UTF-8 byte access" % sorted(x.split("::")[-1] for x in reach & want),
+                   "%s %s: a character above 127 is not one byte of the record - what PUT writes is not what GET reads back"
+                   % (what, ("reads / writes the UTF-8 bytes of a string with " + ", ".join(bad)) if bad else
+                      "does not reach the VM's byte-per-character codec"))
+    ctx.analysed_units(rule, codec_encoders=sorted(enc), codec_decoders=sorted(dec))
+    ctx.require(rule, 4)
+
+
 def run(ctx):
     common.install(ctx)
     r1_open_guard(ctx)
@@ -783,3 +842,4 @@ def run(ctx):
     r13_recorded_index_exists(ctx)
     r14_field_list_fits_the_record(ctx)
     r15_variadic_builtins_handle_every_argument(ctx)
+    r16_records_hold_one_byte_per_character(ctx)
